@@ -121,7 +121,9 @@ Print Assumptions over_limit_nesting_rejected.
 Theorem bounded_parse_stack_refuted :
   src_parse_depth_limit = None ->
   forall B, exists ts d, parse_depth src_parse_depth_limit ts = Ok d /\ B < stack_frames d.
-Proof. intros -> B. apply stack_need_unbounded_proof. Qed.
+Proof.
+  intros H B. destruct src_parse_depth_limit; [discriminate | apply stack_need_unbounded_proof].
+Qed.
 Print Assumptions bounded_parse_stack_refuted.
 
 (* ================= (c) division ================= *)
